@@ -19,19 +19,22 @@ ID_SETS = [['9', '10', '100'], ['2', '11', '1', '3'], ['007', '8', '10', '9'], [
            ['1', '2', '3', '4', '5', '6'], ['10', '9'], ['20', '3', '100', '0099']]
 
 
-def messages(ids, rng):
-    """a roCreate plus messages whose effect depends on the order of application"""
+def messages(ids, rng, ro_at=0):
+    """a roCreate plus messages whose effect depends on the order of application; the roCreate carries the
+    ro_at-th smallest message ID (it need not be the lowest: the other messages are still applied in ascending order)"""
     ids = list(ids)
     nums = sorted(ids, key=int)
+    ro_id = nums[ro_at]
+    rest = [x for x in nums if x != ro_id]
     docs = {}
-    docs[nums[0]] = gens.make_ro(['A', 'B', 'C'], message_id=nums[0])
-    for k, mid in enumerate(nums[1:]):
+    docs[ro_id] = gens.make_ro(['A', 'B', 'C'], message_id=ro_id)
+    for k, mid in enumerate(rest):
         if k % 3 == 0:
             d = story_append(mid, [gens.new_story('S' + mid)])
         elif k % 3 == 1:
-            d = story_move(mid, ['S' + nums[k], 'A'])      # moves the story appended just before
+            d = story_move(mid, ['S' + rest[k - 1], 'A'])      # moves the story appended just before
         else:
-            d = story_move(mid, ['C', 'S' + nums[k - 1]])
+            d = story_move(mid, ['C', 'S' + rest[k - 2]])
         d.find('messageID').text = mid
         docs[mid] = d
     return [to_text(docs[i]) for i in ids]
@@ -40,7 +43,7 @@ def messages(ids, rng):
 class Check:
     pid = 'C10'
     rule = ('message-ID sets of mixed digit counts (9/10/100, leading zeros) x all permutations of the supplied list '
-            '(<=6 messages exhaustively, sampled beyond) x {from_strings, from_files}; sorted(MosFile objects) as well. '
+            '(<=6 messages exhaustively, sampled beyond) x the roCreate carrying the lowest / a middle / the highest ID x {from_strings, from_files, from_s3}; sorted(MosFile objects) as well. '
             'The messages are order sensitive (append then move the appended story). distinct by (id set, permutation class, constructor)')
 
     def matches_known(self, k, v):
@@ -52,8 +55,14 @@ class Check:
         tmp = tempfile.mkdtemp(prefix='mosverif-c10-')
         from mosromgr.mostypes import MosFile
         try:
-            for ids in ID_SETS + ([['1', '02', '3', '10', '11', '12', '9', '100']] if tier == 'thorough' else []):
-                base = messages(ids, rng)
+            id_sets = ID_SETS + ([['1', '02', '3', '10', '11', '12', '9', '100']] if tier == 'thorough' else [])
+            variants = []
+            for ids in id_sets:
+                places = [0, len(ids) - 1, len(ids) // 2] if tier == 'thorough' else [0, (len(ids) - 1) if len(ids) % 2 else len(ids) // 2]
+                for ro_at in sorted(set(places)):
+                    variants.append((ids, ro_at))
+            for ids, ro_at in variants:
+                base = messages(ids, rng, ro_at)
                 perms = list(itertools.permutations(range(len(ids))))
                 limit = 120 if tier == 'quick' else 5000
                 if len(perms) > limit:
@@ -67,7 +76,7 @@ class Check:
                     for how in ('strings', 'files', 's3'):
                         io = impl.run_coll(c['docs'], True, True, how=how, tmpdir=tmp)
                         n += 1
-                        sigs.add((tuple(ids), how, p[0], io.get('err')))
+                        sigs.add((tuple(ids), ro_at, how, p[0], io.get('err')))
                         what = None
                         if 'err0' in io or io.get('err'):
                             what = 'collection of %r failed (%s) for permutation %r' % (ids, io.get('err0') or io.get('err'), p)
@@ -91,7 +100,8 @@ class Check:
                     if got != want_order:
                         vio.append({'what': 'sorted(MosFile) gives %r, numeric order is %r' % (got, want_order),
                                     'case': {'kind': 'sort', 'docs': c['docs']}, 'impl': got, 'expected': want_order})
-                    if mr[0] == 'ok' and [mr[1]] + [x[0] for x in mr[2]] != want_order:
+                    ro_num = int(sorted(ids, key=int)[ro_at])
+                    if mr[0] == 'ok' and (mr[1] != ro_num or [x[0] for x in mr[2]] != [x for x in want_order if x != ro_num]):
                         dis.append({'case': {'kind': 'sort', 'docs': c['docs']}, 'impl': got, 'model': str(mr), 'explained': False})
                 if len(samples) < 3:
                     samples.append({'ids': ids, 'supplied_order': [ids[k] for k in perms[-1]], 'applied_order': want_order})
